@@ -11,12 +11,18 @@
   termination within `n(n+3)/2` iterations (`C17_terminates`), every pending
   field ends with a value or with an error (`C17_total`), an exception other
   than `KeyError` touches the failing field only (`C17_other_exc`).
-  The least-fixpoint / order-independence clause is *not* proved here
-  (`C17_lfp_partial` states what is: a field resolved by the loop had its
-  setter succeed on a mapping reachable by the loop); it is decided by the
-  port and the independent least-fixpoint oracle (exhaustively for <= 3 fields).
+  For setters that read other fields (`DepSetter`: `deps f` are looked up in the
+  mapping, a missing one raises `KeyError`) the loop computes the least fixpoint
+  (`C17_lfp`): a pending field receives a value iff it is obtainable (`Reach`), and
+  a 'default cannot be set' error iff it is not — whatever the order of the pending
+  fields (`C17_order_independent`).  The proof (Proofs/SettersLfp.lean) shows that the
+  cycle check can only fire after the run of `KeyError`s went once around the pending
+  tuple, i.e. after every pending setter failed on the current mapping.
+  The values themselves are whatever the setters compute (`val`); that they do not
+  depend on the order either is decided by the port and the least-fixpoint oracle.
 -/
 import Cerberus.Proofs.Setters
+import Cerberus.Proofs.SettersLfp
 namespace Cerberus
 open Setters
 
@@ -180,6 +186,65 @@ theorem C17_lfp_partial (setter : Key → List (Key × Val) → SetterResult) (s
     apply1 setter s f rest = (rest, Val.dset s.mapping f v, s.failed) := by
   simp [apply1, h]
 
+/-- **least fixpoint.**  For every dependency structure, every list of distinct pending
+    fields (none of them in the mapping yet) and every mapping: the loop terminates with
+    exactly the obtainable fields set and exactly the others reported. -/
+theorem C17_lfp (d : DepSetter) (pending : List Key) (mapping : List (Key × Val))
+    (hnd : pending.Nodup) (hmiss : ∀ f, f ∈ pending → Val.dhas mapping f = false) :
+    ∃ s, resolve d.setter pending mapping = some s ∧ s.pending = [] ∧
+      (∀ f, f ∈ pending → (Val.dhas s.mapping f = true ↔ Reach d mapping pending f)) ∧
+      (∀ f, f ∈ pending → (f ∈ s.failed ↔ ¬ Reach d mapping pending f)) ∧
+      (∀ k, Val.dhas mapping k = true → Val.dhas s.mapping k = true) ∧
+      (∀ k, Val.dhas s.mapping k = true → Reach d mapping pending k) ∧
+      (∀ f, f ∈ s.failed → f ∈ pending) := by
+  have hsome := C17_terminates d.setter pending mapping
+  cases hr : resolve d.setter pending mapping with
+  | none => rw [hr] at hsome; cases hsome
+  | some s =>
+    have fin := run_final d mapping pending _ _ pending 0 false s (init_inv d mapping pending hnd hmiss) hr
+    exact ⟨s, rfl, fin.done, fin.resolved, fin.failed, fin.keep, fin.sound, fin.failedIn⟩
+
+theorem reach_congr (d : DepSetter) (m0 : List (Key × Val)) (p p' : List Key) (h : ∀ x, x ∈ p ↔ x ∈ p')
+    (k : Key) (hk : Reach d m0 p k) : Reach d m0 p' k := by
+  induction hk with
+  | present hp => exact Reach.present hp
+  | step hin _ ih => exact Reach.step ((h _).mp hin) ih
+
+/-- **order independence.**  Two orders of the same pending fields give the same set of
+    resolved fields and the same set of failed fields. -/
+theorem C17_order_independent (d : DepSetter) (p p' : List Key) (mapping : List (Key × Val))
+    (hnd : p.Nodup) (hnd' : p'.Nodup) (hperm : ∀ x, x ∈ p ↔ x ∈ p')
+    (hmiss : ∀ f, f ∈ p → Val.dhas mapping f = false) :
+    ∃ s s', resolve d.setter p mapping = some s ∧ resolve d.setter p' mapping = some s' ∧
+      (∀ k, Val.dhas s.mapping k = Val.dhas s'.mapping k) ∧ (∀ f, f ∈ s.failed ↔ f ∈ s'.failed) := by
+  have hmiss' : ∀ f, f ∈ p' → Val.dhas mapping f = false := fun f hf => hmiss f ((hperm f).mpr hf)
+  obtain ⟨s, hs, hpend, hres, hfail, hkeep, hsound, hfin⟩ := C17_lfp d p mapping hnd hmiss
+  obtain ⟨s', hs', hpend', hres', hfail', hkeep', hsound', hfin'⟩ := C17_lfp d p' mapping hnd' hmiss'
+  have hr : ∀ k, Reach d mapping p k ↔ Reach d mapping p' k :=
+    fun k => ⟨reach_congr d mapping p p' hperm k, reach_congr d mapping p' p (fun x => (hperm x).symm) k⟩
+  -- a key of the result is an old key or a pending field that is reachable
+  have key : ∀ (q : List Key) (t : SState), (∀ f, f ∈ q → (Val.dhas t.mapping f = true ↔ Reach d mapping q f)) →
+      (∀ k, Val.dhas mapping k = true → Val.dhas t.mapping k = true) →
+      (∀ k, Val.dhas t.mapping k = true → Reach d mapping q k) →
+      ∀ k, (Val.dhas t.mapping k = true ↔ Reach d mapping q k) := by
+    intro q t h1 h2 h3 k
+    refine ⟨h3 k, fun hk => ?_⟩
+    cases hk with
+    | present hp => exact h2 k hp
+    | step hin hd => exact (h1 k hin).mpr (Reach.step hin hd)
+  refine ⟨s, s', hs, hs', fun k => ?_, fun f => ?_⟩
+  · have a := key p s hres hkeep hsound k
+    have b := key p' s' hres' hkeep' hsound' k
+    cases h1 : Val.dhas s.mapping k <;> cases h2 : Val.dhas s'.mapping k <;> simp_all
+  · constructor
+    · intro hf
+      have hp := hfin f hf
+      exact (hfail' f ((hperm f).mp hp)).mpr (fun hr' => (hfail f hp).mp hf ((hr f).mpr hr'))
+    · intro hf
+      have hp' := hfin' f hf
+      have hp := (hperm f).mpr hp'
+      exact (hfail f hp).mpr (fun hr0 => (hfail' f hp').mp hf ((hr f).mp hr0))
+
 /-! ### non-vacuity: the F16 chain (-1 ← -2 ← 'c') resolves; a 2-cycle fails for both -/
 def C17_chain : Key → List (Key × Val) → SetterResult
   | .i (-1), m => match Val.dlookup m (.i (-2)) with | some v => .ok v | none => .keyError
@@ -194,5 +259,19 @@ def C17_cycle : Key → List (Key × Val) → SetterResult
   | _, m => match Val.dlookup m (.s "a") with | some v => .ok v | none => .keyError
 
 example : (resolve C17_cycle [.s "a", .s "b"] []).map (·.failed.length) = some 2 := by decide
+
+/-! a dependency structure with a chain (a ← b ← c), a cycle (x ↔ y) and a field behind the cycle (z):
+    the chain resolves, cycle and follower fail, in both orders -/
+def C17_exDeps : DepSetter :=
+  { deps := fun f => match f with
+      | .s "a" => [.s "b"] | .s "b" => [.s "c"] | .s "x" => [.s "y"] | .s "y" => [.s "x"]
+      | .s "z" => [.s "x", .s "c"] | _ => []
+    val := fun _ _ => .int 1 }
+
+example : (resolve C17_exDeps.setter [.s "x", .s "a", .s "y", .s "z", .s "b", .s "c"] []).map
+    (fun s => (s.failed, Val.dkeys s.mapping)) = some ([.s "y", .s "z", .s "x"], [.s "c", .s "b", .s "a"]) := by decide
+example : (resolve C17_exDeps.setter [.s "c", .s "z", .s "b", .s "y", .s "a", .s "x"] []).map
+    (fun s => (s.failed, Val.dkeys s.mapping)) = some ([.s "x", .s "z", .s "y"], [.s "c", .s "b", .s "a"]) := by decide
+example : [Key.s "x", .s "a", .s "y", .s "z", .s "b", .s "c"].Nodup := by decide
 
 end Cerberus
